@@ -124,6 +124,14 @@ def cases():
         xml = HEAD + (f'<xs:complexType name="T"><xs:complexContent><xs:extension base="t:B">{body}<xs:attribute name="inner" type="xs:string"/></xs:extension></xs:complexContent>'
                       '<xs:attribute name="after1" type="xs:string"/><xs:attribute name="after2" type="xs:int"/></xs:complexType></xs:schema>')
         out.append((f'k{ri}', xml, ','.join(BASE + list(names) + ['@inner', '@after1', '@after2'])))
+    # an extension whose own content is a choice (XSD: extension content is group | all | choice | sequence), with and without attributes
+    for nattr in (0, 2):
+        for inner in ('<xs:element name="c0" type="xs:string"/><xs:element name="c1" type="xs:int"/>',
+                      '<xs:element name="c0" type="xs:string"/><xs:sequence><xs:element name="c1" type="xs:int"/><xs:element name="c2" type="xs:int"/></xs:sequence>'):
+            attrs = ''.join(f'<xs:attribute name="a{i}" type="xs:string"/>' for i in range(nattr))
+            names = re.findall(r'name="(c\d)"', inner)
+            xml = HEAD + f'<xs:complexType name="T"><xs:complexContent><xs:extension base="t:B"><xs:choice>{inner}</xs:choice>{attrs}</xs:extension></xs:complexContent></xs:complexType></xs:schema>'
+            out.append((f'x{nattr}{len(names)}', xml, ','.join(BASE + names + [f'@a{i}' for i in range(nattr)])))
     # anonymous-typed global elements: <xs:element name="T"><xs:complexType> tree + attributes </xs:complexType></xs:element>
     for ri, root in enumerate(roots[:150]):
         for nattr in (0, 2):
